@@ -26,6 +26,8 @@ TraceInit ==
     /\ t \in 1..NTraces /\ l = 1
     /\ plan = [i \in Writers |-> PadPlan(Log[t].plan, i)]
     /\ rplan = [i \in Readers |-> Log[t].rplan[i - 4]]
+    /\ rmode = [i \in Readers |-> Log[t].rmode[i - 4]]
+    /\ first = [y \in Readers |-> 0]
     /\ pplan = [i \in Policers |-> Log[t].pplan]
     /\ maxv = 1 /\ pk = [y \in Policers |-> 0]
     /\ lock = 0 /\ writeTxn = 0 /\ writeEvent = 0 /\ waiters = <<>> /\ evSet = {} /\ nextEv = 0
@@ -52,6 +54,7 @@ At(labels) ==
 Pinned(rv) == {<<y, rv[y]>> : y \in {z \in Readers : rv[z] # 0}}
 \* projection of the real shared state = specification state (primed: after the step)
 StateOK(st) ==
+    /\ Check(t, l, "PinnedRetained", \A q \in ToSetOf(st.rd) : q[2] \in ToSetOf(st.vids))
     /\ Check(t, l, "State:write_txn", st.wt = writeTxn')
     /\ Check(t, l, "State:queue", st.we = writeEvent' /\ st.wq = waiters' /\ ToSetOf(st.es) = evSet')
     /\ Check(t, l, "State:versions", st.vids = Ids(versions') /\ ToSetOf(st.rd) = Pinned(readerVer'))
@@ -83,13 +86,16 @@ TBody == /\ e.op = "body" /\ At({"wBody"})
 TEnded == /\ e.op = "ended" /\ At({"eEnd"})
           /\ Check(t, l, "Plan", e.how = plan[th][k[th]])
           /\ StepOf(th) /\ Adv
-ReaderView == /\ Check(t, l, "ReaderSnapshot", e.vid = rver[th].id /\ e.c = rver[th].content /\ e.cb = rver[th].content)
+ReaderView == /\ Check(t, l, "ReaderSnapshot", rver[th].id # 0 /\ e.vid = rver[th].id /\ e.c = rver[th].content /\ e.cb = rver[th].content)
               /\ Check(t, l, "PublishedIsCommitted", e.peek = published /\ e.peekb = published)
 TROpen == /\ e.op = "ropen" /\ At({"rOpen"}) /\ ReaderView /\ StepOf(th) /\ Adv
 TRRead == /\ e.op = "rread" /\ At({"rRead"}) /\ ReaderView /\ StepOf(th) /\ Adv
 TPolicy == /\ e.op = "policyset" /\ At({"pEnd"})
            /\ Check(t, l, "Plan", e.n = pplan[th][pk[th]])
            /\ StepOf(th) /\ Adv
+TRFail == /\ e.op = "rfail" /\ At({"rOpen"})
+          /\ Check(t, l, "ReaderRefused", rver[th].id = 0)
+          /\ StepOf(th) /\ Adv
 TRClosed == /\ e.op = "rclosed" /\ At({"rEnd"}) /\ StepOf(th) /\ Adv
 TFinal == /\ e.op = "final"
           /\ Check(t, l, "AllDone", \A y \in Threads : pc[y] = "Done")
@@ -97,12 +103,14 @@ TFinal == /\ e.op = "final"
           /\ Check(t, l, "SerialEquivalence", e.st.pub = Serial(committed) /\ e.st.pubb = Serial(committed)
                                               /\ e.st.lastc = Serial(committed))
           /\ UNCHANGED vars /\ StateOK(e.st) /\ Adv
-TBad == \/ e.op = "deadlock" /\ Check(t, l, "NoDeadlock", FALSE) /\ UNCHANGED vars /\ Adv
+TBad == \/ e.op = "wait_timeout" /\ Check(t, l, "Protocol:timed-wait-expired (the admission protocol has no timed wait)", FALSE)
+           /\ UNCHANGED vars /\ Adv
+        \/ e.op = "deadlock" /\ Check(t, l, "NoDeadlock", FALSE) /\ UNCHANGED vars /\ Adv
         \/ e.op = "budget" /\ Check(t, l, "Terminates", FALSE) /\ UNCHANGED vars /\ Adv
         \/ e.op = "crash" /\ Check(t, l, "NoCrash:" \o e.exc, FALSE) /\ UNCHANGED vars /\ Adv
         \/ e.op = "driver_crash" /\ Check(t, l, "DriverCrash", FALSE) /\ UNCHANGED vars /\ Adv
 KnownOps == {"acquire", "release", "newevent", "wait", "set", "returned", "body", "ended", "ropen",
-             "rread", "rclosed", "policyset", "final", "deadlock", "budget", "crash", "driver_crash"}
+             "rread", "rfail", "rclosed", "policyset", "final", "wait_timeout", "deadlock", "budget", "crash", "driver_crash"}
 TUnknown == e.op \notin KnownOps /\ Check(t, l, "Protocol:unexpected-operation:" \o e.op, FALSE)
             /\ UNCHANGED vars /\ Adv
 
@@ -113,7 +121,7 @@ TraceNext ==
     ELSE \/ \E y \in Threads : pc[y] \in LazyLabels /\ StepOf(y) /\ Stay
          \/ /\ l <= Len(Ev(t))
             /\ \/ TAcquire \/ TRelease \/ TNewEvent \/ TWait \/ TSet \/ TReturned \/ TBody \/ TEnded
-               \/ TROpen \/ TRRead \/ TRClosed \/ TPolicy \/ TFinal \/ TBad \/ TUnknown
+               \/ TROpen \/ TRRead \/ TRFail \/ TRClosed \/ TPolicy \/ TFinal \/ TBad \/ TUnknown
 
 Accepted == Accepting(t, l)
 =============================================================================
